@@ -374,4 +374,6 @@ func rulesC02(e *Engine, r *Report) {
 	e.shareRule(r, "C08", "R08.3", "R02.14", "the poll comes after all bytes of THAT version: the tracker hands a file to the validator only when the bytes acknowledged for the version in hand reach its size - a count carried over from an older version of the name makes the new version polled (and, the receiver answering by name, released) while its last part is still in flight")
 	// ---------------------------------------------------------------- R02.15
 	e.shareRule(r, "C07", "R07.5", "R02.15", "a restart does not release what was never sent: at start-up the receiver's positive answer - which is about a name - marks a cache entry done (and deletes the file) only when the sent log has a record of that very version, i.e. every byte of it was acknowledged before the sender went down")
+	// ---------------------------------------------------------------- R02.16
+	e.shareRule(r, "C08", "R08.5", "R02.16", "a refused request transmits nothing: the count of parts the sender books as transmitted comes from what the receiver answered (200: all, 206: the announced count) and is zero for every other status - otherwise a refusal is booked as a complete transmission, the file is polled and, the receiver answering for the name, released")
 }
